@@ -47,7 +47,7 @@ def _spec(ctx, targeted=False):
         return ('2,8,32', 6, '0,2', '2', 'record-symlinks,run,mixed')
     if ctx.tier == 'quick':
         return ('2,8,32', 1, '0', '2', '')
-    return ('2,3,8,16,32', 4, '1,2,4,16', '2', '')
+    return ('2,3,8,16,32', 2, '1,2,4,16', '2', '')
 
 
 def _in_toto_frames(report):
@@ -85,18 +85,24 @@ def _params(b):
 def _violations(rc, o, batches):
     viol = []
     byid = {b['id']: b for b in batches}
-    # 1. results that differ from the sequential ones
-    for b in batches:
-        if b.get('mismatches'):
-            m = b['mismatches'][0]
-            inp = _params(b)
-            inp['call'] = {'goroutine': m['goroutine'], 'index': m['op'], 'kind': m['kind'], 'tree': m['tree']}
-            inp['n_differing_calls'] = len(b['mismatches'])
-            inp['tasks'] = b.get('tasks')
-            viol.append({'klass': 'result-differs/' + m['kind'], 'case': {'id': b['id'], 'input': inp},
-                         'impl': m['concurrent'], 'expected': m['sequential'],
-                         'what': 'a call made concurrently with independent calls returned something else than the same call made '
-                                 'sequentially (replay re-runs the batch several times: the Go scheduler picks the interleaving)'})
+    # 1. results that differ from the sequential ones (one violation: the first such call; the others summarised)
+    diff = [b for b in batches if b.get('mismatches')]
+    if diff:
+        b = diff[0]
+        m = b['mismatches'][0]
+        inp = _params(b)
+        inp['call'] = {'goroutine': m['goroutine'], 'index': m['op'], 'kind': m['kind'], 'tree': m['tree']}
+        inp['n_differing_calls'] = sum(len(x['mismatches']) for x in diff)
+        inp['differing_calls_by_kind'] = {}
+        for x in diff:
+            for mm in x['mismatches']:
+                inp['differing_calls_by_kind'][mm['kind']] = inp['differing_calls_by_kind'].get(mm['kind'], 0) + 1
+        inp['other_batches'] = [_params(x) for x in diff[1:10]]
+        inp['tasks'] = b.get('tasks')
+        viol.append({'klass': 'result-differs', 'case': {'id': b['id'], 'input': inp},
+                     'impl': m['concurrent'], 'expected': m['sequential'],
+                     'what': 'a call (%s) made concurrently with independent calls returned something else than the same call made '
+                             'sequentially (replay re-runs the batch several times: the Go scheduler picks the interleaving)' % m['kind']})
     # 2. race reports, attributed to the batch that was running
     pos = 0
     cur = None
